@@ -486,7 +486,10 @@ func (t *Thread) cleanupCloseStack(c Cont, h int, err error) error {
 		if Truth(v) {
 			closeErr, ok := Metacall(t, v, "__close", []Value{v, ErrorValue(err)}, NewTerminationWith(c, 0, false))
 			if !ok {
-				return errors.New("to be closed value missing a __close metamethod")
+				// The value lost its metamethod after it was declared: that is
+				// an error in place of the handler's, the other pending values
+				// are closed all the same.
+				closeErr = errors.New("to be closed value missing a __close metamethod")
 			}
 			if closeErr != nil {
 				err = closeErr
